@@ -18,7 +18,7 @@ extern "C" {
 
 #define VS_MAXP 2048   /* max recorded choice points per execution */
 #define VS_MAXE 4096   /* max events per execution */
-#define VS_MAXT 16     /* max controlled threads per execution */
+#define VS_MAXT 64     /* max controlled threads per execution */
 #define VS_NCELL 64
 
 /* outcomes of one execution */
